@@ -28,6 +28,14 @@ hint["g"] = ("Prefer a change at a SEAM BETWEEN COMPONENTS or in an ERROR / FALL
              "Python <-> Rust field names, snapshot metadata <-> live objects, text <-> operands), an exception that is caught and replaced by a "
              "default, a value that is clamped / masked / defaulted when it is out of range, or the order of two independent-looking updates. "
              "The change should leave every component correct in isolation. Avoid the most obvious arithmetic or table site.")
+hint["h"] = ("Assume the repository is guarded by a strong verification framework that you cannot see: it enumerates every opcode x prefix x "
+             "mode byte with seeded operand bytes and states, runs the Python core and the Rust core differentially, round-trips decode / encode / "
+             "assemble, replays model-generated event schedules on both machine models, snapshots at every step, and compares duplicated tables. "
+             "Craft a change that is a genuine violation of the property yet has the best chance of slipping past such a framework: it should need "
+             "a specific VALUE or a specific LONG or ORDERED sequence that enumeration with small bounds, short random schedules and two-core "
+             "comparison are unlikely to hit (for example: a value reachable only after many steps, a counter that must wrap, three events in a "
+             "particular order, a state that both cores would get wrong in the same way, an input class the framework would consider out of "
+             "scope but the property does not).")
 hint = hint[variant]
 print(f"""You are helping test a verification framework for the repository mblsha/binja-esr (a Binary Ninja plugin + emulator for the Sharp SC62015 CPU: decoder/encoder, LLIL lifter, assembler, PC-E500 machine emulator in Python under pce500/, and a Rust core under sc62015/core).
 
